@@ -97,11 +97,14 @@ def eval_ref(node):
     """-> (canonical dict, norm bound of operands chain, allowance for dropped tiny terms)"""
     if "op" not in node:
         c = pgen.canon_operand(node)
-        # like terms of an operand may cancel to a residue below the library's 1e-8 zero tolerance, which simplify drops
-        tiny = sum(1 for v in c.values() if 0 < abs(v) <= 2e-8)
-        return c, max(pgen.raw_norm(node), 1e-300), 1e-8 * tiny
+        # an operand as written is used as it is: the library simplifies (and may drop coefficients below its 1e-8 zero
+        # tolerance) only in the RESULT of an operation - that is where the allowance below is added, never here
+        return c, max(pgen.raw_norm(node), 1e-300), 0.0
     a, na, ea = eval_ref(node["a"])
     op = node["op"]
+    if op == "simplify":
+        # denotes the same operator; coefficients below the library's 1e-8 zero tolerance may be dropped
+        return a, na, ea + 1e-8 * sum(1 for v in a.values() if 0 < abs(v) <= 2e-8)
     if op == "/":
         s = pgen.coef(node["s"])
         r, nb, e = pgen.canon_scale(a, 1.0 / s), na / abs(s), ea / abs(s)
@@ -122,7 +125,8 @@ def eval_ref(node):
         if op == "+":
             r, nb, e = pgen.canon_add(a, b), na + nbb, ea + eb
         elif op == "-":
-            r, nb, e = pgen.canon_add(a, b, -1), na + nbb, ea + eb
+            # a - b is computed as a + (-1) * b: the intermediate (-1) * b is a result too, and is simplified
+            r, nb, e = pgen.canon_add(a, b, -1), na + nbb, ea + eb + 1e-8 * sum(1 for v in b.values() if 0 < abs(v) <= 2e-8)
         else:
             r, nb, e = pgen.canon_mul(a, b), na * nbb, ea * nbb + eb * na + ea * eb
     tiny = sum(1 for v in r.values() if 0 < abs(v) <= 2e-8)
@@ -464,7 +468,7 @@ def o_shared(spec):
     # the same objects are used by three expressions in a row: an operation that modified an
     # operand would make a later expression denote the wrong matrix
     for tree in (spec["tree"], spec["tree2"], spec["tree"]):
-        full = _strip_simplify(_subst(tree, spec["pool"]))
+        full = _subst(tree, spec["pool"])
         R, bound, allow = eval_ref(full)
         if not np.isfinite(bound) or bound > 1e30:
             return {"inconclusive": "magnitude_overflow"}
